@@ -1,14 +1,19 @@
 import Driver.Dates
+import Driver.Holidays
 open Drv
 
 structure St where
   dates : DateState := {}
+  hols : HolState := {}
 
 def stepLine (st : St) (line : String) : St × String :=
   let toks := (line.trimAscii.toString.splitOn " ").filter (· ≠ "")
   if toks == ["reset"] then ({}, "ok") else
   match dateStep st.dates toks with
   | some (d, out) => ({ st with dates := d }, out)
+  | none =>
+  match holStep st.hols toks with
+  | some (h, out) => ({ st with hols := h }, out)
   | none => (st, "bad-op")
 
 partial def loop (h : IO.FS.Stream) (out : IO.FS.Stream) (st : St) : IO Unit := do
